@@ -233,18 +233,32 @@ inductive Pass (α D : Type) where
   /-- `continue` -/
   | again (s : LS α D)
 
+/-- `if (τ != τ_prev) { τ != 0 ? take_accelerated_step(τ) : take_safe_step(); τ_prev = τ; }` -/
+def lsRecompute (P : Problem α) (q : Vec α) (s : LS α D) : LS α D :=
+  if s.tau != s.tauPrev then
+    if s.tau != 0 then
+      { s with next := takeAcceleratedStep P s.curr s.next q s.tau, tick := s.tick + 1,
+               tauPrev := s.tau }
+    else
+      let r := takeSafeStep P s.curr s.next s.tick
+      { s with curr := r.1, next := r.2.1, tick := r.2.2, tauPrev := s.tau }
+  else s
+
+/-- "Update L-BFGS in candidate (even if we don't accept this point)". -/
+def lsUpdateInCandidate (dir : Direction D α) (s : LS α D) : LS α D :=
+  if s.updInLs && !s.updated then
+    let r := dir.update s.d s.curr.gamma s.next.gamma s.curr.x s.next.x s.curr.p s.next.p
+               s.curr.gradPsi s.next.gradPsi
+    { s with d := r.1, tick := s.tick + 1, dirRejected := !r.2,
+             lbfgsRejected := s.lbfgsRejected + (if r.2 then 0 else 1),
+             updInLs := false, updated := true }
+  else s
+
 /-- One pass through the body of `while (!stop_signal.stop_requested()) { … }`. -/
 def lsPass (P : Problem α) (dir : Direction D α) (pr : Params α) (q : Vec α) (tauInit : α)
-    (s : LS α D) : Pass α D :=
+    (s0 : LS α D) : Pass α D :=
   -- Recompute step only if τ changed
-  let s : LS α D := if s.tau != s.tauPrev then
-      if s.tau != 0 then
-        { s with next := takeAcceleratedStep P s.curr s.next q s.tau, tick := s.tick + 1,
-                 tauPrev := s.tau }
-      else
-        let r := takeSafeStep P s.curr s.next s.tick
-        { s with curr := r.1, next := r.2.1, tick := r.2.2, tauPrev := s.tau }
-    else s
+  let s := lsRecompute P q s0
   let fail := !RealLike.isFinite s.next.psix ||
     (decide (s.next.L ≥ pr.Lmax) && !decide (s.curr.L ≥ pr.Lmax))
   if decide (s.tau > (0 : α)) && fail then
@@ -252,25 +266,19 @@ def lsPass (P : Problem α) (dir : Direction D α) (pr : Params α) (q : Vec α)
                     d := dir.reset s.d, tick := s.tick + 1, updInLs := false }
   else
   -- Calculate x̂ₖ₊₁, ψ(x̂ₖ₊₁)
-  let s : LS α D := { s with next := evalPsiHat P pr (evalProxGradStep P s.next), tick := s.tick + 2 }
-  if decide (s.next.L < pr.Lmax) && qubViolated pr s.next then
-    .again { s with next := { s.next with gamma := s.next.gamma / 2, L := s.next.L * 2 },
-                    tau := if s.tau > 0 then tauInit else s.tau,
-                    stepsizeBacktracks := s.stepsizeBacktracks + 1, updInLs := false }
+  let s2 : LS α D := { s with next := evalPsiHat P pr (evalProxGradStep P s.next), tick := s.tick + 2 }
+  if decide (s2.next.L < pr.Lmax) && qubViolated pr s2.next then
+    .again { s2 with next := { s2.next with gamma := s2.next.gamma / 2, L := s2.next.L * 2 },
+                     tau := if s2.tau > 0 then tauInit else s2.tau,
+                     stepsizeBacktracks := s2.stepsizeBacktracks + 1, updInLs := false }
   else
   -- Update L-BFGS in candidate
-  let s : LS α D := if s.updInLs && !s.updated then
-      let r := dir.update s.d s.curr.gamma s.next.gamma s.curr.x s.next.x s.curr.p s.next.p
-                 s.curr.gradPsi s.next.gradPsi
-      { s with d := r.1, tick := s.tick + 1, dirRejected := !r.2,
-               lbfgsRejected := s.lbfgsRejected + (if r.2 then 0 else 1),
-               updInLs := false, updated := true }
-    else s
-  if decide (s.tau > (0 : α)) && linesearchViolated pr s.curr s.next then
-    let tau := s.tau * pr.lsUpdateFactor
+  let s3 := lsUpdateInCandidate dir s2
+  if decide (s3.tau > (0 : α)) && linesearchViolated pr s3.curr s3.next then
+    let tau := s3.tau * pr.lsUpdateFactor
     let tau := if tau < pr.minLsCoef then 0 else tau
-    .again { s with tau := tau, lsBacktracks := s.lsBacktracks + 1 }
-  else .done s
+    .again { s3 with tau := tau, lsBacktracks := s3.lsBacktracks + 1 }
+  else .done s3
 
 /-- The inner `while (!stop_signal.stop_requested())` loop. -/
 def lineSearch (P : Problem α) (dir : Direction D α) (pr : Params α) (stop : Nat → Bool)
@@ -317,132 +325,160 @@ def exitBlock (P : Problem α) (pr : Params α) (s : St α D) (eps : α) (status
     wrote := write, callbacks := (cb :: s.cbs).reverse, ticks := tick, final := some c,
     fuelOut := s.fuelOut }
 
-/-- The main `while (true)` loop; `fuel` bounds the number of iterations of the model
-    (`max_iter + 1` suffices: `Props/C06` shows the chain is never `Busy` at `k = max_iter`). -/
-def mainLoop (P : Problem α) (dir : Direction D α) (pr : Params α) (stop : Nat → Bool) (oot : Bool)
-    (x0 y Sig errz0 : Vec α) : Nat → St α D → Result α D
-  | 0, s => { (exitBlock P pr s s.stats.eps .Exception x0 y Sig errz0) with fuelOut := true }
-  | fuel + 1, s =>
-    -- Check stopping criteria
-    let (curr, tick) := if requiresGradHat pr.stopCrit && !s.curr.haveGradHat
-      then (evalGradPsiHat P s.curr, s.tick + 1) else (s.curr, s.tick)
-    let eps := epsOf P pr curr
-    let tick := tick + epsTicks pr.stopCrit
-    let s : St α D := { s with curr := curr, tick := tick }
-    let status := statusOf pr s.k eps s.noProgress oot (stop s.tick)
-    if status != .Busy then exitBlock P pr s eps status x0 y Sig errz0 else
-    -- Calculate quasi-Newton step
-    let (d, tick, tauInit0) :=
-      if s.k == 0 then
-        (dir.init s.d s.curr.gamma s.curr.x s.curr.xhat s.curr.p s.curr.gradPsi, s.tick + 1,
-         some (0 : α))
-      else (s.d, s.tick, none)
-    let hasInit := dir.hasInitial d
-    let tick := if s.k == 0 then tick + 1 else tick   -- has_initial_direction() is only evaluated when k = 0
-    let qValid := s.qValid || decide (s.k > 0) || hasInit
-    let (d, tick, q, tauInit, fails) :=
-      if decide (s.k > 0) || hasInit then
-        let r := dir.apply d s.curr.gamma s.curr.x s.curr.xhat s.curr.p s.curr.gradPsi s.q
-        let t1 : α := if r.2.1 then 1 else 0
-        let t1 : α := if t1 == 1 && !vallFinite r.2.2 then 0 else t1
-        if t1 != 1 then (dir.reset r.1, tick + 2, r.2.2, t1, 1) else (r.1, tick + 1, r.2.2, t1, 0)
-      else (d, tick, s.q, tauInit0.getD 0, 0)
-    -- Line search
-    let ls0 : LS α D :=
-      { curr := s.curr, next := { s.next with gamma := s.curr.gamma, L := s.curr.L }, d := d,
-        tick := tick, tau := tauInit, tauPrev := -1, updInLs := pr.updateDirInCandidate,
-        updated := false, dirRejected := true, lsBacktracks := 0, stepsizeBacktracks := 0,
-        lbfgsRejected := 0 }
-    let ls := lineSearch P dir pr stop q tauInit pr.lsFuel ls0
-    -- interrupted during the line search: discard the candidate, handle the stop request at the
-    -- top of the loop (`if (stop_signal.stop_requested()) continue;`)
-    if stop ls.tick then
-      mainLoop P dir pr stop oot x0 y Sig errz0 fuel
-        { s with curr := ls.curr, next := ls.next, q := q, qValid := qValid, d := ls.d, tick := ls.tick,
-                 stats := { s.stats with
-                   lbfgsFailures := s.stats.lbfgsFailures + fails,
-                   lsBacktracks := s.stats.lsBacktracks + ls.lsBacktracks,
-                   stepsizeBacktracks := s.stats.stepsizeBacktracks + ls.stepsizeBacktracks,
-                   lbfgsRejected := s.stats.lbfgsRejected + ls.lbfgsRejected },
-                 fuelOut := s.fuelOut || ls.fuelOut }
-    else
-    let tau := ls.tau
-    let stats : Stats α :=
-     { s.stats with
+/-- Top of the loop: `∇ψ(x̂ₖ)` if the criterion needs it, `εₖ`, the stop status. -/
+def headStep (P : Problem α) (pr : Params α) (stop : Nat → Bool) (oot : Bool) (s : St α D) :
+    St α D × α × SolverStatus :=
+  let ct := if requiresGradHat pr.stopCrit && !s.curr.haveGradHat
+    then (evalGradPsiHat P s.curr, s.tick + 1) else (s.curr, s.tick)
+  let eps := epsOf P pr ct.1
+  let s' : St α D := { s with curr := ct.1, tick := ct.2 + epsTicks pr.stopCrit }
+  (s', eps, statusOf pr s'.k eps s'.noProgress oot (stop s'.tick))
+
+/-- Direction stage: `initialize` at k = 0, `apply`, validity check.
+    Returns (direction state, tick, q, τ_init, lbfgs_failures increment, q valid). -/
+def directionStage (dir : Direction D α) (s : St α D) : D × Nat × Vec α × α × Nat × Bool :=
+  let dt := if s.k == 0 then
+      (dir.init s.d s.curr.gamma s.curr.x s.curr.xhat s.curr.p s.curr.gradPsi, s.tick + 1)
+    else (s.d, s.tick)
+  let hasInit := dir.hasInitial dt.1
+  -- has_initial_direction() is only evaluated when k = 0
+  let tick := if s.k == 0 then dt.2 + 1 else dt.2
+  let qValid := s.qValid || decide (s.k > 0) || hasInit
+  if decide (s.k > 0) || hasInit then
+    let r := dir.apply dt.1 s.curr.gamma s.curr.x s.curr.xhat s.curr.p s.curr.gradPsi s.q
+    let t1 : α := if r.2.1 then 1 else 0
+    let t1 : α := if t1 == 1 && !vallFinite r.2.2 then 0 else t1
+    if t1 != 1 then (dir.reset r.1, tick + 2, r.2.2, t1, 1, qValid)
+    else (r.1, tick + 1, r.2.2, t1, 0, qValid)
+  else (dt.1, tick, s.q, 0, 0, qValid)
+
+/-- "Update L-BFGS" after the line search (flush on step-size change, optional recomputation of the
+    last prox step, `direction.update`). Returns (curr, direction state, tick, rejected increment). -/
+def updateStage (P : Problem α) (dir : Direction D α) (pr : Params α) (ls : LS α D) :
+    Iterate α × D × Nat × Nat :=
+  if !ls.updated then
+    let cdt : Iterate α × D × Nat :=
+      if ls.curr.gamma != ls.next.gamma then
+        let d := dir.changedGamma ls.d ls.next.gamma ls.curr.gamma
+        if pr.recomputeLastProx then
+          (evalProxGradStep P { ls.curr with gamma := ls.next.gamma, L := ls.next.L }, d, ls.tick + 2)
+        else (ls.curr, d, ls.tick + 1)
+      else (ls.curr, ls.d, ls.tick)
+    let curr := cdt.1
+    let r := dir.update cdt.2.1 curr.gamma ls.next.gamma curr.x ls.next.x curr.p ls.next.p
+               curr.gradPsi ls.next.gradPsi
+    (curr, r.1, cdt.2.2 + 1, if r.2 then 0 else 1)
+  else (ls.curr, ls.d, ls.tick, 0)
+
+/-- One iteration of the main loop after a `Busy` status (direction, line search, bookkeeping,
+    callback, `std::swap(curr, next); ++k`), or the `continue` taken when the solver was
+    interrupted during the line search. -/
+def iterBody (P : Problem α) (dir : Direction D α) (pr : Params α) (stop : Nat → Bool)
+    (s : St α D) (eps : α) : St α D :=
+  let ds := directionStage dir s
+  let d := ds.1; let tick := ds.2.1; let q := ds.2.2.1; let tauInit := ds.2.2.2.1
+  let fails := ds.2.2.2.2.1; let qValid := ds.2.2.2.2.2
+  -- Line search
+  let ls0 : LS α D :=
+    { curr := s.curr, next := { s.next with gamma := s.curr.gamma, L := s.curr.L }, d := d,
+      tick := tick, tau := tauInit, tauPrev := -1, updInLs := pr.updateDirInCandidate,
+      updated := false, dirRejected := true, lsBacktracks := 0, stepsizeBacktracks := 0,
+      lbfgsRejected := 0 }
+  let ls := lineSearch P dir pr stop q tauInit pr.lsFuel ls0
+  let stats1 : Stats α :=
+    { s.stats with
       lbfgsFailures := s.stats.lbfgsFailures + fails,
       lsBacktracks := s.stats.lsBacktracks + ls.lsBacktracks,
       stepsizeBacktracks := s.stats.stepsizeBacktracks + ls.stepsizeBacktracks,
-      lbfgsRejected := s.stats.lbfgsRejected + ls.lbfgsRejected,
+      lbfgsRejected := s.stats.lbfgsRejected + ls.lbfgsRejected }
+  -- interrupted during the line search: discard the candidate, handle the stop request at the
+  -- top of the loop (`if (stop_signal.stop_requested()) continue;`)
+  if stop ls.tick then
+    { s with curr := ls.curr, next := ls.next, q := q, qValid := qValid, d := ls.d, tick := ls.tick,
+             stats := stats1, fuelOut := s.fuelOut || ls.fuelOut }
+  else
+  let tau := ls.tau
+  let stats : Stats α :=
+    { stats1 with
       lsFailures := s.stats.lsFailures + (if tau == 0 && decide (tauInit > 0) then 1 else 0),
       tau1Accepted := s.stats.tau1Accepted + (if tau == 1 then 1 else 0),
       countTau := s.stats.countTau + (if tauInit > 0 then 1 else 0),
       sumTau := s.stats.sumTau + tau }
-    -- Check if we made any progress
-    let noProgress := noProgressUpdate s.noProgress s.k pr.maxNoProgress (ls.curr.x == ls.next.x)
-    -- Update L-BFGS
-    let (curr, d, tick, stats) :=
-      if !ls.updated then
-        let (curr, d, tick) :=
-          if ls.curr.gamma != ls.next.gamma then
-            let d := dir.changedGamma ls.d ls.next.gamma ls.curr.gamma
-            if pr.recomputeLastProx then
-              (evalProxGradStep P { ls.curr with gamma := ls.next.gamma, L := ls.next.L }, d,
-               ls.tick + 2)
-            else (ls.curr, d, ls.tick + 1)
-          else (ls.curr, ls.d, ls.tick)
-        let r := dir.update d curr.gamma ls.next.gamma curr.x ls.next.x curr.p ls.next.p
-                   curr.gradPsi ls.next.gradPsi
-        (curr, r.1, tick + 1, { stats with lbfgsRejected := stats.lbfgsRejected + (if r.2 then 0 else 1) })
-      else (ls.curr, ls.d, ls.tick, stats)
-    -- progress callback, advance
-    let cb : Callback α :=
-      { k := s.k, status := .Busy, it := curr, fbe := curr.fbe, q := if qValid then q else [], tau := tau,
-        eps := eps }
-    mainLoop P dir pr stop oot x0 y Sig errz0 fuel
-      { curr := ls.next, next := curr, q := q, qValid := qValid, d := d, tick := tick + 1, stats := stats, k := s.k + 1,
-        noProgress := noProgress, cbs := cb :: s.cbs, fuelOut := s.fuelOut || ls.fuelOut }
+  -- Check if we made any progress
+  let noProgress := noProgressUpdate s.noProgress s.k pr.maxNoProgress (ls.curr.x == ls.next.x)
+  -- Update L-BFGS
+  let us := updateStage P dir pr ls
+  let curr := us.1
+  let stats : Stats α := { stats with lbfgsRejected := stats.lbfgsRejected + us.2.2.2 }
+  -- progress callback, advance
+  let cb : Callback α :=
+    { k := s.k, status := .Busy, it := curr, fbe := curr.fbe, q := if qValid then q else [], tau := tau,
+      eps := eps }
+  { curr := ls.next, next := curr, q := q, qValid := qValid, d := us.2.1, tick := us.2.2.1 + 1,
+    stats := stats, k := s.k + 1, noProgress := noProgress, cbs := cb :: s.cbs,
+    fuelOut := s.fuelOut || ls.fuelOut }
+
+/-- The main `while (true)` loop; `fuel` bounds the number of passes of the model
+    (`max_iter + 2` suffices: the chain is never `Busy` at `k = max_iter`, and a pass that does not
+    advance `k` is followed by an exit). -/
+def mainLoop (P : Problem α) (dir : Direction D α) (pr : Params α) (stop : Nat → Bool) (oot : Bool)
+    (x0 y Sig errz0 : Vec α) : Nat → St α D → Result α D
+  | 0, s => { (exitBlock P pr s s.stats.eps .Exception x0 y Sig errz0) with fuelOut := true }
+  | fuel + 1, s =>
+    let h := headStep P pr stop oot s
+    if h.2.2 != .Busy then exitBlock P pr h.1 h.2.1 h.2.2 x0 y Sig errz0
+    else mainLoop P dir pr stop oot x0 y Sig errz0 fuel (iterBody P dir pr stop h.1 h.2.1)
+
+/-- The initial `while (curr->L < L_max && qub_violated(*curr))` loop.
+    Returns (iterate, tick, number of backtracks, fuel exhausted). -/
+def initQub (P : Problem α) (pr : Params α) : Nat → Iterate α → Nat → Nat → Iterate α × Nat × Nat × Bool
+  | 0, c, t, b => (c, t, b, true)
+  | f + 1, c, t, b =>
+    if decide (c.L < pr.Lmax) && qubViolated pr c then
+      initQub P pr f
+        (evalPsiHat P pr (evalProxGradStep P { c with gamma := c.gamma / 2, L := c.L * 2 })) (t + 2) (b + 1)
+    else (c, t, b, false)
+
+def blankIterate (garbageV : Vec α) (garbageS : α) : Iterate α :=
+  { x := garbageV, xhat := garbageV, gradPsi := garbageV,
+    gradPsiHat := garbageV, p := garbageV, yhat := garbageV, psix := garbageS, psixhat := garbageS,
+    gamma := garbageS, L := garbageS, pTp := garbageS, gradPsiTp := garbageS, hxhat := garbageS,
+    haveGradHat := false }
+
+def stats0 (garbageS : α) : Stats α :=
+  { eps := garbageS, sumTau := 0, finalGamma := 0, finalPsi := 0, finalH := 0, finalFbe := 0 }
+
+/-- Everything before the main loop: Lipschitz estimate, first proximal-gradient step, initial
+    quadratic-upper-bound backtracking.  `Sum.inl ticks` = early `NotFinite` return. -/
+def initState (P : Problem α) (d0 : D) (pr : Params α) (x0 : Vec α) (garbageV : Vec α)
+    (garbageS : α) : Nat ⊕ St α D :=
+  let blank := blankIterate garbageV garbageS
+  let curr := { blank with x := x0 }
+  -- Estimate Lipschitz constant
+  let cnt : Iterate α × Iterate α × Nat :=
+    if pr.L0 ≤ 0 then
+      let r := initialLipschitz P pr curr.x
+      ({ curr with L := r.1, psix := r.2.1, gradPsi := r.2.2.1, xhat := r.2.2.2.1 },
+       { blank with gradPsi := r.2.2.2.2 }, 2)
+    else
+      (evalPsiGradPsi P { curr with L := pr.L0 }, blank, 1)
+  if !RealLike.isFinite cnt.1.L then .inl cnt.2.2
+  else
+  let curr := { cnt.1 with gamma := pr.LgammaFactor / cnt.1.L }
+  -- First proximal gradient step, then the quadratic upper bound loop
+  let r := initQub P pr pr.lsFuel (evalPsiHat P pr (evalProxGradStep P curr)) (cnt.2.2 + 2) 0
+  .inr { curr := r.1, next := cnt.2.1, q := garbageV, d := d0, tick := r.2.1,
+         stats := { stats0 garbageS with stepsizeBacktracks := r.2.2.1 }, k := 0, noProgress := 0,
+         cbs := [], fuelOut := r.2.2.2 }
 
 /-- `PANOCSolver::operator()`. `garbage*` is the arbitrary content of never-written storage. -/
 def run (P : Problem α) (dir : Direction D α) (d0 : D) (pr : Params α) (stop : Nat → Bool)
     (oot : Bool) (x0 y Sig errz0 : Vec α) (garbageV : Vec α) (garbageS : α) : Result α D :=
-  let blank : Iterate α :=
-    { x := garbageV, xhat := garbageV, gradPsi := garbageV,
-      gradPsiHat := garbageV, p := garbageV, yhat := garbageV, psix := garbageS, psixhat := garbageS,
-      gamma := garbageS, L := garbageS, pTp := garbageS, gradPsiTp := garbageS, hxhat := garbageS,
-      haveGradHat := false }
-  let stats0 : Stats α :=
-    { eps := garbageS, sumTau := 0, finalGamma := 0, finalPsi := 0, finalH := 0, finalFbe := 0 }
-  let curr := { blank with x := x0 }
-  let next := blank
-  -- Estimate Lipschitz constant
-  let (curr, next, tick) :=
-    if pr.L0 ≤ 0 then
-      let r := initialLipschitz P pr curr.x
-      ({ curr with L := r.1, psix := r.2.1, gradPsi := r.2.2.1, xhat := r.2.2.2.1 },
-       { next with gradPsi := r.2.2.2.2 }, 2)
-    else
-      (evalPsiGradPsi P { curr with L := pr.L0 }, next, 1)
-  if !RealLike.isFinite curr.L then
-    { stats := { stats0 with status := .NotFinite }, dfinal := d0, x := x0, y := y, errz := errz0, wrote := false,
-      callbacks := [], ticks := tick, final := none }
-  else
-  let curr := { curr with gamma := pr.LgammaFactor / curr.L }
-  -- First proximal gradient step
-  let curr := evalPsiHat P pr (evalProxGradStep P curr)
-  let tick := tick + 2
-  -- Quadratic upper bound
-  let rec qub : Nat → Iterate α → Nat → Nat → Bool → Iterate α × Nat × Nat × Bool
-    | 0, c, t, b, _ => (c, t, b, true)
-    | f + 1, c, t, b, fo =>
-      if decide (c.L < pr.Lmax) && qubViolated pr c then
-        let c := { c with gamma := c.gamma / 2, L := c.L * 2 }
-        qub f (evalPsiHat P pr (evalProxGradStep P c)) (t + 2) (b + 1) fo
-      else (c, t, b, fo)
-  let (curr, tick, bts, fo) := qub pr.lsFuel curr tick 0 false
-  mainLoop P dir pr stop oot x0 y Sig errz0 (pr.maxIter + 1)
-    { curr := curr, next := next, q := garbageV, d := d0, tick := tick,
-      stats := { stats0 with stepsizeBacktracks := bts }, k := 0, noProgress := 0, cbs := [],
-      fuelOut := fo }
+  match initState P d0 pr x0 garbageV garbageS with
+  | .inl ticks =>
+    { stats := { stats0 garbageS with status := .NotFinite }, dfinal := d0, x := x0, y := y,
+      errz := errz0, wrote := false, callbacks := [], ticks := ticks, final := none }
+  | .inr s => mainLoop P dir pr stop oot x0 y Sig errz0 (pr.maxIter + 2) s
 
 end
 end Alpaqa.Panoc
